@@ -10,6 +10,7 @@ import (
 	"github.com/bronlabs/bron-crypto/pkg/base/curves"
 	"github.com/bronlabs/bron-crypto/pkg/base/curves/pairable/bls12381"
 	"github.com/bronlabs/bron-crypto/pkg/base/serde"
+	"github.com/bronlabs/bron-crypto/pkg/base/utils"
 	"github.com/bronlabs/bron-crypto/pkg/base/utils/iterutils"
 	"github.com/bronlabs/bron-crypto/pkg/base/utils/sliceutils"
 	"github.com/bronlabs/bron-crypto/pkg/signatures"
@@ -532,6 +533,9 @@ func (sig *Signature[Sig, SigFE, PK, PKFE, E, S]) UnmarshalCBOR(data []byte) err
 	if dto == nil {
 		return signatures.ErrInvalidArgument.WithMessage("Signature data is nil")
 	}
+	if utils.IsNil(dto.V) {
+		return signatures.ErrInvalidArgument.WithMessage("signature point is missing")
+	}
 	sig2, err := NewSignature(dto.V, dto.Pop)
 	if err != nil {
 		return errs.Wrap(err).WithMessage("could not create signature from deserialized data")
@@ -677,6 +681,9 @@ func (pop *ProofOfPossession[Sig, SigFE, PK, PKFE, E, S]) UnmarshalCBOR(data []b
 	}
 	if dto == nil {
 		return signatures.ErrInvalidArgument.WithMessage("ProofOfPossession data is nil")
+	}
+	if utils.IsNil(dto.V) {
+		return signatures.ErrInvalidArgument.WithMessage("proof of possession point is missing")
 	}
 	pop2, err := NewProofOfPossession(dto.V)
 	if err != nil {
